@@ -45,20 +45,20 @@ PROPS = {
                      "Astria.C09_original_counterexamples"],
         "harnesses": ["quorum"],
         "monitors": ["quorum_sound", "metadata_bound"],
-        "scope_regex": r"^quorum (check|meta) ",
-        "nontrivial_regex": r"^quorum (check .* => (ok|err:(no-quorum|duplicate-vote|bad-signature|exceeds-total))|meta )",
+        "scope_regex": r"^quorum (check|meta|fetchmeta) ",
+        "nontrivial_regex": r"^quorum (check .* => (ok|err:(no-quorum|duplicate-vote|bad-signature|exceeds-total))|meta |fetchmeta )",
         "rule": "in-crate harness (child module of celestia::verify) calls the real ensure_commit_has_quorum with real ed25519 keys and "
                 "tendermint types: every k-of-n for n<=9 equal validators, one-big-validator sets around the 2/3 boundary for totals in every "
                 "residue mod 3 (incl. 2^40+r), 700 (thorough 20000) generated commits over 1..8 validators with powers from "
                 "{1,2,3,5,10,2^31,2^61,2^62,2^62+7}, honest subsets / forged, foreign-key, wrong-block, missing signatures / unknown validators / "
                 "duplicated CommitSigs / repeated keys in the set / height mismatch; and BlobVerifier::verify_metadata against a cached commit "
-                "for all four (chain id equal?, hash equal?) combinations. non-trivial = reached the tally (ok, no-quorum, duplicate, bad "
+                "for all four (chain id equal?, hash equal?) combinations; and 60 (thorough 600) metadata verifications end to end through the real "
+                "VerificationMeta::fetch with commit and validator set served by an in-process wiremock sequencer RPC. non-trivial = reached the tally (ok, no-quorum, duplicate, bad "
                 "signature) or a metadata decision; distinct = distinct trace lines",
         "trusted_base": [KERNEL, "hand-written model Astria/Quorum/Model.lean tied to block_verifier.rs / verify.rs by the correspondence run",
                          "harness /verif/harness/conductor/celestia.rs + Lean driver; ed25519 (astria-core-crypto) — sigOk is a parameter of every theorem",
                          "tendermint / tendermint-rpc types, moka cache"],
-        "assumptions": ["the fetch of commit and validator set from the sequencer RPC (VerificationMeta::fetch) is exercised only through the cache; "
-                        "the RPC transport and retry loop are not modelled",
+        "assumptions": ["the RPC transport, rate limiter and retry loop in front of VerificationMeta::fetch are exercised (wiremock) but not modelled",
                         "rollup-blob Merkle binding (reconstruct.rs) is covered by C07's check, not this one"],
         "explanation": "theorem: acceptance implies distinct validly-signing validators with > 2/3 of total power, for every signature oracle; "
                        "correspondence on every generated commit; monitors recompute the spec from the op alone",
